@@ -413,6 +413,13 @@ func runConc(t *testing.T, rc *RunCtx, prop string) {
 		rc.Violate(prop, "export-failed", err.Error(), w.s.Step)
 		return
 	}
+	if len(ops) > 12 {
+		// Histories fed to the linearizability checker stay short (the problem is NP-hard, and inside a
+		// bubble the checker's own timeout runs on the fake clock); long sustained-load runs are checked for
+		// completion, lock discipline and the pairwise ledger only.
+		rc.Stats.Inc("porcupine_skipped_long_history", 1)
+		return
+	}
 	verdict, hist := w.checkLinearizable(export)
 	rc.Stats.Inc("porcupine_"+verdict, 1)
 	if verdict == "illegal" {
